@@ -16,6 +16,8 @@ from ..constfold import Folder
 from ..dataflow import Flow, chain, call_name
 from ..absint import Interp
 from ..poly import Poly, le, lt, eq
+from ..terms import Terms, mk_cmp, is_none, unsite, split_cond, \
+    alternatives, match, V, show
 from ..util import calls_in, qual, formals, returns_of, raises_of, \
     raise_name, has_fact, bind, parse_expr
 
@@ -196,128 +198,192 @@ def r1_algebra(program, rep):
     rep.floor("C04-R1", 9)
 
 
+def single_of(X):
+    """The ways of taking the only element of a one-element collection."""
+    return [("call", ("global", "next"), (("call", ("global", "iter"),
+                                           (X,), ()),), ()),
+            ("comp", X, 0),
+            ("comp", ("call", ("global", "list"), (X,), ()), 0),
+            ("comp", ("call", ("global", "tuple"), (X,), ()), 0),
+            ("elem", X)]
+
+
+def straight_through(facts, ENT):
+    """Which of the conditions 'exactly one source / one route / the source
+    is not None / the route is a link / the source is the link opposite the
+    route' are among the (canonical) facts about entry ``ENT``."""
+    facts = [(unsite(t), p) for t, p in facts]
+    SRCS, ROUTE = ("attr", ENT, "sources"), ("attr", ENT, "route")
+    got = set()
+
+    def has(t, p):
+        return (t, p) in facts
+    ln = lambda X: ("call", ("global", "len"), (X,), ())   # noqa: E731
+    if has(mk_cmp("Eq", ln(SRCS), ("const", 1)), True):
+        got.add("one source")
+    if has(mk_cmp("Eq", ln(ROUTE), ("const", 1)), True):
+        got.add("one route")
+    if has(mk_cmp("In", ("const", None), SRCS), False):
+        got.add("source known")
+    for S in single_of(SRCS):
+        if has(is_none(S), False):
+            got.add("source known")
+        for K in single_of(ROUTE):
+            if has(("attr", K, "is_link"), True):
+                got.add("route is a link")
+            for op in ("Is", "Eq"):
+                if has(mk_cmp(op, ("attr", S, "opposite"), K), True) or \
+                        has(mk_cmp(op, S, ("attr", K, "opposite")), True):
+                    got.add("straight through")
+    return got
+
+
+STRAIGHT = ["one source", "one route", "source known", "route is a link",
+            "straight through"]
+
+
+def _true_returns(T, fn):
+    """[(return statement, facts that hold when it returns a true value)]."""
+    out = []
+    for r in returns_of(fn):
+        n = T.cfg.node_of(r)
+        if r.value is None:
+            continue
+        v, pol = T.cond(r.value, n, True)
+        if v == ("const", False) or v == ("const", None):
+            continue
+        extra = []
+        if v != ("const", True):
+            extra = split_cond(v, pol)
+        for ent, facts in T.facts_by_path(n):
+            out.append((r, ent, list(facts) + extra, extra))
+    return out
+
+
 def r2_default(program, rep):
     fn = program.get(RD + ":_is_defaultable")
     inst = qual(fn)
-    fl = Flow(fn)
-    cfg = fl.cfg
+    T = Terms(fn)
+    cfg = T.cfg
     i, entry, table, chk = formals(fn)
-    trues = [r for r in returns_of(fn) if isinstance(r.value, ast.Constant)
-             and r.value.value is True]
-    if len(trues) != 1:
-        raise AnalysisError("_is_defaultable: one 'return True' expected")
-    tn = cfg.node_of(trues[0])
-    f = fl.facts(tn)
-    srcv = snkv = None
-    for d in fl.defs:
-        if d.mode == "assign" and unparse(d.value) == \
-                "next(iter(%s.sources))" % entry:
-            srcv = d.var
-        if d.mode == "assign" and unparse(d.value) == \
-                "next(iter(%s.route))" % entry:
-            snkv = d.var
-    need = [("len(%s.sources) == 1" % entry, True, "one source"),
-            ("len(%s.route) == 1" % entry, True, "one route"),
-            ("None not in %s.sources" % entry, True, "source known")]
-    if srcv and snkv:
-        need += [("%s.is_link" % srcv, True, "source is a link"),
-                 ("%s.is_link" % snkv, True, "route is a link")]
-    for text, pol, what in need:
-        rep.check(has_fact(f, text, pol), "C04-R2", inst,
-                  "an entry is dropped only if: %s (%s)" % (what, text),
-                  construct="defaultable requires %s" % what,
-                  node=trues[0],
+    ENT = ("param", entry)
+    trues = _true_returns(T, fn)
+    if not trues:
+        raise AnalysisError("_is_defaultable: no way to return True found")
+    missing = set()
+    alias_ok = True
+    scan_ok = True
+    I = ("param", i)
+    for r, n, facts, extra in trues:
+        missing |= set(STRAIGHT) - straight_through(facts, ENT)
+        # the alias gate: the check is disabled, or no lower entry
+        # intersects
+        if (("param", chk), False) in facts:
+            continue
+        q = [x for x in T.quantified(n, extra, facts) if x[0] == "none"]
+        found = False
+        for _, it, conds in q:
+            lower = it[0] == "item" and it[1] == ("param", table) and \
+                it[2][0] == "slice" and it[2][2] == ("const", None) and \
+                it[2][3] == ("const", None) and it[2][1] in (
+                    ("binop", "Add", I, ("const", 1)),
+                    ("binop", "Add", ("const", 1), I), I)
+            D = ("elem", it)
+            want = ("call", ("global", "intersect"),
+                    (("attr", ENT, "key"), ("attr", ENT, "mask"),
+                     ("attr", D, "key"), ("attr", D, "mask")), ())
+            want2 = ("call", ("global", "intersect"),
+                     (("attr", D, "key"), ("attr", D, "mask"),
+                      ("attr", ENT, "key"), ("attr", ENT, "mask")), ())
+            if len(conds) == 1 and conds[0][1] is True and \
+                    conds[0][0] in (want, want2):
+                found = True
+                scan_ok = scan_ok and lower
+        alias_ok = alias_ok and found
+    for what in STRAIGHT:
+        rep.check(what not in missing, "C04-R2", inst,
+                  "an entry is dropped only if: %s" % what,
+                  construct="defaultable requires %s" % what, node=fn,
                   fail="_is_defaultable can return True without '%s' "
                        "holding: an entry that default routing does not "
-                       "reproduce is removed" % text)
-    opp = srcv and snkv and (
-        has_fact(f, "%s.opposite is %s" % (srcv, snkv), True) or
-        has_fact(f, "%s is %s.opposite" % (srcv, snkv), True) or
-        has_fact(f, "%s.opposite == %s" % (srcv, snkv), True))
-    rep.check(bool(opp), "C04-R2", inst, "an entry is dropped only if it "
-              "goes straight through (source link opposite the route link)",
-              construct="defaultable requires straight through",
-              node=trues[0])
-    # alias condition: every path to return True passes
-    #   assume(check_for_aliases == False)  or  assume(any(intersect...)
-    #   == False)
-    anys = [c for c in calls_in(fn, "any")]
-    ok_alias = False
-    scan_ok = False
-    if len(anys) == 1 and isinstance(anys[0].args[0], ast.GeneratorExp):
-        ge = anys[0].args[0]
-        gates = [n for n in cfg.nodes if n.kind == "assume" and (
-            (chain(n.ast) == chk and not n.polarity) or
-            (n.ast is anys[0] and not n.polarity))]
-        ok_alias = cfg.must_pass(cfg.entry, lambda n: n in gates,
-                                 targets=[tn])
-        # the scan
-        it_ = ge.generators[0].iter
-        dv = chain(ge.generators[0].target)
-        if isinstance(it_, ast.Subscript) and chain(it_.value) == table and \
-                isinstance(it_.slice, ast.Slice) and \
-                it_.slice.upper is None and it_.slice.lower is not None and \
-                not ge.generators[0].ifs:
-            lo = fl.sym(it_.slice.lower, cfg.node_containing(anys[0]))
-            I = Poly.atom(i)
-            low_ok = (lo == I + 1) or (lo == I)
-            c = ge.elt
-            args_ok = isinstance(c, ast.Call) and \
-                call_name(c)[0] == "intersect" and len(c.args) == 4
-            if args_ok:
-                an = cfg.node_containing(anys[0])
-                a0 = _resolve(fl, c.args[0], an)
-                a1 = _resolve(fl, c.args[1], an)
-                args_ok = (a0, a1, unparse(c.args[2]), unparse(c.args[3])) \
-                    == ("%s.key" % entry, "%s.mask" % entry,
-                        "%s.key" % dv, "%s.mask" % dv)
-            scan_ok = low_ok and args_ok
-    rep.check(ok_alias, "C04-R2", inst, "an entry is dropped only if the "
+                       "reproduce is removed" % what)
+    rep.check(alias_ok, "C04-R2", inst, "an entry is dropped only if the "
               "alias check is disabled or no lower entry intersects it",
-              construct="defaultable alias gate", node=trues[0])
-    rep.check(scan_ok, "C04-R2", inst, "the alias scan compares the entry's "
-              "own (key, mask) with the (key, mask) of every entry below it "
-              "(table[i+1:], no upper bound)",
+              construct="defaultable alias gate", node=fn)
+    rep.check(alias_ok and scan_ok, "C04-R2", inst, "the alias scan compares "
+              "the entry's own (key, mask) with the (key, mask) of every "
+              "entry below it (table[i+1:], no upper bound)",
               construct="alias scan", node=fn,
               fail="the alias scan does not test intersect(entry.key, "
                    "entry.mask, d.key, d.mask) for every d in table[i+1:]: "
                    "a lower entry that matches some of the dropped entry's "
                    "keys can capture them")
-    # only path to True; everything else returns False
     # the shortcut that disables the check
     mn = program.get(RD + ":minimise")
-    mfl = Flow(mn)
-    chk2 = formals(mn)[2]
-    offs = [d for d in mfl.defs if d.var == chk2 and d.mode == "assign"]
+    M = Terms(mn)
+    tbl, _, chk2 = formals(mn)[:3]
+    TBL = ("param", tbl)
+    ln = lambda X: ("call", ("global", "len"), (X,), ())   # noqa: E731
+
+    def setof(attr):
+        return ("call", ("global", "set"),
+                (("genexp", ("attr", ("elem", TBL), attr), ((TBL, ()),)),),
+                ())
+    need = [(mk_cmp("Eq", ln(setof("mask")), ("const", 1)), True),
+            (mk_cmp("Eq", ln(TBL), ln(setof("key"))), True)]
     ok = True
-    for d in offs:
-        ff = mfl.facts(d.node)
-        tbl = formals(mn)[0]
-        okd = isinstance(d.value, ast.Constant) and d.value.value is False \
-            and has_fact(ff, "len(set((e.mask for e in %s))) == 1" % tbl,
-                         True) and \
-            has_fact(ff, "len(%s) == len(set((e.key for e in %s)))" % (
-                tbl, tbl), True)
-        ok = ok and okd
-    rep.check(ok and len(offs) == 1, "C04-R2", qual(mn), "the alias check is "
+    n_off = 0
+    for b_ in M.binds:
+        if b_.var != chk2 or b_.mode != "assign":
+            continue
+        n_off += 1
+        v, pol = M.cond(b_.value, b_.node, True)
+        facts = [(unsite(t), p) for t, p in M.all_facts(b_.node)]
+        if v == ("const", True):
+            continue
+        if v != ("const", False):
+            # the flag is off only when the assigned condition is false
+            facts += [(unsite(t), p) for t, p in split_cond(v, not pol)]
+        ok = ok and all(x in facts for x in need)
+    rep.check(ok and n_off >= 1, "C04-R2", qual(mn), "the alias check is "
               "skipped only when all masks are equal and all keys distinct "
               "(no two entries can match the same key)",
               construct="alias check shortcut", node=mn)
-    # calls in minimise pass i, entry, table, flag
+    # each entry is judged with its own index against the whole table
     cs = calls_in(mn, "_is_defaultable")
-    okc = len(cs) == 1 and [chain(a) for a in cs[0].args] == [
-        "i", "entry", formals(mn)[0], chk2]
-    lp = cs[0]._parent if cs else None
-    while lp is not None and not isinstance(lp, ast.For):
-        lp = lp._parent
-    okc = okc and lp is not None and unparse(lp.iter) == \
-        "enumerate(%s)" % formals(mn)[0] and \
-        [chain(t) for t in lp.target.elts] == ["i", "entry"]
+    okc = len(cs) == 1
+    if okc:
+        n = M.cfg.node_containing(cs[0])
+        env = _comp_env(M, cs[0])
+        b_ = bind(cs[0], fn)
+        got = {k: M.term(v, n, env) for k, v in b_.items()
+               if isinstance(v, ast.AST)}
+        okc = got.get(i) == ("index", TBL) and \
+            got.get(entry) == ("elem", TBL) and got.get(table) == TBL
+        flag = got.get(chk)
+        okc = okc and flag is not None and all(
+            x == ("param", chk2) or x[0] in ("const", "not", "cmp")
+            for x in alternatives(flag))
     rep.check(okc, "C04-R2", qual(mn), "each entry is judged with its own "
               "index in the table it is judged against",
               construct="defaultable call", node=mn)
+    # the kept entries are exactly those that are not defaultable
+    okk = False
+    for r in returns_of(mn):
+        if r.value is None:
+            continue
+        built = M.filtered(M.term(r.value))
+        if built and len(built) == 1:
+            it, elt, conds = built[0]
+            okk = unsite(it) == ("call", ("global", "enumerate"), (TBL,),
+                                 ()) and elt == ("elem", TBL) and \
+                len(conds) == 1 and conds[0][1] is False and \
+                conds[0][0][0] == "call" and \
+                conds[0][0][1] == ("global", "_is_defaultable")
+    rep.check(okk, "C04-R2", qual(mn), "the result keeps, in order, exactly "
+              "the entries that are not defaultable",
+              construct="kept entries", node=mn)
     # no rig call site disables the alias check by a constant
-    n_sites = 0
     for m in sorted(program.modules):
         if not m.startswith("rig."):
             continue
@@ -327,7 +393,6 @@ def r2_default(program, rep):
                 continue
             for k in c.keywords:
                 if k.arg == "check_for_aliases":
-                    n_sites += 1
                     okk = not (isinstance(k.value, ast.Constant) and
                                not k.value.value)
                     rep.check(okk, "C04-R2", m, "call site does not disable "
@@ -350,6 +415,25 @@ def r2_default(program, rep):
                               construct="positional check_for_aliases",
                               node=c)
     rep.floor("C04-R2", 9)
+
+
+def _comp_env(T, expr):
+    """Bindings of the comprehension variables in scope at ``expr`` (an
+    expression inside a comprehension of T.fn), as a term environment."""
+    env = {}
+    chain_ = []
+    p = getattr(expr, "_parent", None)
+    while p is not None and p is not T.fn:
+        if isinstance(p, (ast.ListComp, ast.SetComp, ast.GeneratorExp,
+                          ast.DictComp)):
+            chain_.append(p)
+        p = getattr(p, "_parent", None)
+    for comp in reversed(chain_):
+        n = T.cfg.node_containing(comp)
+        for g in comp.generators:
+            it = T.term(g.iter, n, env)
+            T._bind_target(g.target, T._elem(it), env)
+    return env
 
 
 def _resolve(fl, expr, node):
